@@ -100,7 +100,17 @@ func doHmtx(c *Case, out *vio.Out) {
 		o := ev{"w": []int{}, "lsb": []int{}, "asc": 0, "desc": 0, "gap": 0, "coff": 0, "rise": 0, "run": 0}
 		if err == nil {
 			r2, n2 := reSlope(dec.CaretAngle)
-			o = ev{"w": ints16(dec.Widths), "lsb": ints16(dec.LSB), "asc": int(dec.Ascent), "desc": int(dec.Descent),
+			// the decoded vectors belong to the caller: growing one of them (a glyph is added) must not reach
+			// into the other, whatever storage the decoder gave them
+			w0 := ints16(dec.Widths)
+			if len(dec.LSB) > 0 {
+				_ = append(dec.LSB, 0x5A5A, 0x5A5A)
+			}
+			if len(dec.Widths) > 0 {
+				_ = append(dec.Widths, 0x6B6B, 0x6B6B)
+			}
+			w0 = ints16(dec.Widths)
+			o = ev{"w": w0, "lsb": ints16(dec.LSB), "asc": int(dec.Ascent), "desc": int(dec.Descent),
 				"gap": int(dec.LineGap), "coff": int(dec.CaretOffset), "rise": r2, "run": n2}
 		}
 		e["ok"] = err == nil
@@ -172,6 +182,9 @@ func doRuns(c *Case, out *vio.Out) {
 		dec, err := hmtx.Decode(hheaData, hmtxData)
 		e["ok"] = err == nil
 		if err == nil {
+			if len(dec.Widths) > 0 {
+				_ = append(dec.Widths, 0x6B6B, 0x6B6B) // see above
+			}
 			e["dw"] = mx.RLE(ints16(dec.Widths))
 			e["dl"] = mx.RLE(ints16(dec.LSB))
 		} else {
